@@ -55,6 +55,7 @@ type kptrace struct {
 	h           *verifHandler
 	waits       int
 	lastPid     int
+	idleAfter   bool       // after the script the program just runs (no events) until it is killed
 	script      []scriptEv // when set, events follow this script instead of being chosen symbolically
 }
 
@@ -120,6 +121,11 @@ func (k *kptrace) wait4(pid int, wstatus *unix.WaitStatus, options int, rusage *
 			*wstatus = unix.WaitStatus(9)
 			return p.pid, nil
 		}
+	}
+	if k.idleAfter && len(k.script) == 0 && !k.groupKilled {
+		// the program computes quietly: nothing to report until somebody kills the group
+		sym.WaitUntil(func() bool { return k.groupKilled })
+		return k.wait4(pid, wstatus, options, rusage)
 	}
 	// pick the process that reports next
 	var cands []*kproc
@@ -392,4 +398,36 @@ func VerifC03_MultiProc() {
 		{2, wsTrapSeccomp}, // trap in the thread
 		{0, wsTrapSeccomp}, // trap in main again
 	})
+}
+
+// VerifC11_PtraceCancel: the context is cancelled before the trace loop starts or at any
+// instant while the program runs quietly; the run must return as Time Limit Exceeded
+// (killed by the canceller), never as Runner Error or Disallowed Syscall, and must not hang.
+func VerifC11_PtraceCancel() {
+	kern.InstallContext()
+	const pgid = 4242
+	k := &kptrace{pgid: pgid, budget: 100, esrchAt: -1, idleAfter: true, script: []scriptEv{{0, 0}, {0, wsTrapExec}}}
+	k.procs = []*kproc{{pid: pgid, exists: true, alive: true}, {pid: pgid + 1}}
+	h := &verifHandler{verdict: TraceAllow}
+	sym.Intercept("golang.org/x/sys/unix.Wait4", k.wait4)
+	sym.Intercept("golang.org/x/sys/unix.PtraceSetOptions", k.setOptions)
+	sym.Intercept("golang.org/x/sys/unix.PtraceCont", k.cont)
+	sym.Intercept("golang.org/x/sys/unix.Kill", k.kill)
+	sym.Intercept("github.com/criyle/go-sandbox/ptracer.ptraceGetRegSet", k.getRegs)
+	sym.Intercept("syscall.PtraceSetRegs", k.setRegsReq)
+	t := &Tracer{Handler: &hookHandler{inner: h, k: k}, Limit: runner.Limit{TimeLimit: 1 << 62, MemoryLimit: 1 << 62}}
+	ctx, cancel := kern.WithCancel(kern.Background())
+	if sym.Bool("pre_cancelled") {
+		cancel()
+	} else {
+		go func() {
+			sym.Yield()
+			cancel()
+		}()
+	}
+	res := t.trace(ctx, pgid)
+	cancel()
+	sym.Reach("returned")
+	sym.Assert(k.groupKilled, "the process group must have been killed")
+	sym.Assert(res.Status == runner.StatusTimeLimitExceeded, "a cancelled run must be reported as Time Limit Exceeded")
 }
